@@ -120,3 +120,17 @@ func VerifSchemaForType(t reflect.Type, style int) *openapi3.Schema {
 	}
 	return schema.SchemaForType(t, opts)
 }
+
+// VerifSetRequestCounter puts the request id counter of a client (*Client or
+// *StdioClient) at n, as if the client had already issued n requests.
+func VerifSetRequestCounter(client interface{}, n int64) bool {
+	switch c := client.(type) {
+	case *Client:
+		c.requestID.Store(n)
+		return true
+	case *StdioClient:
+		c.requestID.Store(n)
+		return true
+	}
+	return false
+}
